@@ -174,15 +174,21 @@ def T_err(msg):
 
 def replay(ctx, doc, check=_life.check_c03, with_up=False):
     sc = doc["scenario"]
-    if "insample_update_predict" in sc:
+    if "insample_update_predict" in sc or "direct" in sc:
         return run(ctx, pid=ctx.pid, check=check, with_up=with_up)
     entry = [e for e in scope.forecasters() if e["name"] == sc["forecaster"]][0]
     if "beh" in sc:
+        # (a judge rejection of a replayed behaviour is re-judged below as well)
         bad, obs = check(ctx, entry, sc["beh"], sc["origin"], sc["index_kind"], sc.get("fhvariant", 0))
         print("observed:", canon(obs)[:2000])
         if bad:
             print("VIOLATION property=%s replay=%s" % (ctx.pid, ctx.replay))
             print("  detail:", bad[0])
+            return 1
+        recs = _life.trace_events(1, sc["beh"]["mode"], sc["beh"]["hist"], obs)
+        rejects, _ = ctx.judge("TraceForecaster", "TraceForecaster.cfg", recs)
+        if rejects:
+            print("VIOLATION property=%s replay=%s %s" % (ctx.pid, ctx.replay, rejects))
             return 1
     else:
         obs, _ = LC.run_history(entry["factory"], sc["random_hist"], sc["origin"], "range")
